@@ -21,7 +21,16 @@ def prove(name, goal, hyps=(), timeout_ms=20000, statement=None):
     for h in hyps:
         s.add(h)
     s.add(z3.Not(goal))
-    r = s.check()
+    import threading
+    t = threading.Timer(timeout_ms / 1000.0 * 1.5 + 3.0, s.ctx.interrupt)
+    t.daemon = True
+    t.start()
+    try:
+        r = s.check()
+    except z3.Z3Exception:
+        r = z3.unknown
+    finally:
+        t.cancel()
     d = dict(name=name, kind="lemma", backend="z3", time=time.time() - t0, statement=statement or name)
     if r == z3.unsat:
         d["verdict"] = "PROVED"
@@ -31,7 +40,10 @@ def prove(name, goal, hyps=(), timeout_ms=20000, statement=None):
         d["clause"] = name
     else:
         d["verdict"] = "UNDECIDED"
-        d["reason"] = "solver: " + s.reason_unknown()
+        try:
+            d["reason"] = "solver: " + s.reason_unknown()
+        except z3.Z3Exception:
+            d["reason"] = "solver: interrupted"
     return d
 
 
